@@ -484,6 +484,11 @@ def St.map {β γ : Type} (f : β → γ) (st : St β) : St γ :=
 /-- render one value the way `stmt.AddVar(stmt, v)` does on a fresh statement -/
 def render {β : Type} (d : Dialect) (v : Val β) : St β := addVar d (v.depth + 1) v {}
 
+/-- payload of a plain scalar var (for stating concrete facts about `Vars`) -/
+def Val.payload? {β : Type} : Val β → Option β
+  | .scalar b => some b
+  | _ => none
+
 /-! ### concrete SQL text -/
 
 def segText (d : Dialect) : Seg → List Char
